@@ -43,7 +43,7 @@ ASSUMPTIONS = [
 
 TIERS = {
     "quick":    {"runs": 3200,   "chunk": 100,  "hash_seeds": [0], "max_steps": 10, "timeout": 900},
-    "thorough": {"runs": 120000, "chunk": 1500, "hash_seeds": [0], "max_steps": 12, "timeout": 3400},
+    "thorough": {"runs": 48000, "chunk": 600, "max_wall": 2400, "hash_seeds": [0], "max_steps": 12, "timeout": 3400},
     "selftest": {"runs": 160,    "chunk": 20,   "hash_seeds": [0], "max_steps": 10, "timeout": 300},
 }
 REQUIRED_PROBES = {"quick": ["error_recorded_in_vevent", "non_lenient_container_raised", "delivery_with_warm_cache",
